@@ -110,7 +110,7 @@ pub fn multi_diagnostic_program(r: &mut Rng) -> String {
             // a generated program, usually with one planted fault (realistic type diagnostics)
             let mode = if r.chance(1, 2) { crate::gen_prog::Mode::Explicit } else { crate::gen_prog::Mode::Inferred };
             let p = crate::gen_prog::gen_program_with(r, mode, &crate::gen_prog::GT::Int, false);
-            let h = if r.chance(2, 3) { crate::perturb::perturb(&p.h, r).map_or(p.h.clone(), |x| x.0) } else { p.h.clone() };
+            let h = if r.chance(2, 3) { crate::perturb::perturb_or_edit(&p.h, r).map_or(p.h.clone(), |x| x.0) } else { p.h.clone() };
             crate::printer::print(&h, &crate::printer::Style::plain(), 0).text
         }
         _ => {
